@@ -48,7 +48,7 @@ func checkC10(p *Prog, r *Report) {
 			r.OK(kp("STATE", "context-free-foreign-object#none"), "everything block processing depends on is in a committed store: objects implemented outside the module are consulted with a Context (reviewed exceptions: the codecs, the params subspace table)", "x/*, app/*",
 				fmt.Sprintf("%d functions in scope; %d context-free calls on held foreign objects, all on reviewed receiver types", len(scope), len(allowed)))
 		}
-		r.Floor("context-free-calls-on-reviewed-foreign-objects", len(allowed), 5)
+		r.Floor("context-free-calls-on-reviewed-foreign-objects", len(allowed), 2)
 	}
 	for _, w := range writes {
 		if _, isCh := channels[w.Loc]; !isCh {
